@@ -81,6 +81,9 @@ class MapCfg(object):
     # -- values -------------------------------------------------------------
     def scalar_tok(self, rng, dtype=None):
         dt = dtype or self.dtype
+        if dt in ('i8', 'u8') and rng.random() < 0.06:
+            # 64-bit values that float64 cannot hold exactly
+            return str(rng.choice([2 ** 53 + 1, 2 ** 62 + 1, 2 ** 53 + 3] + ([-(2 ** 53) - 1] if dt == 'i8' else [2 ** 63 + 5])))
         if dt in INT_DTYPES:
             if dt.startswith('u'):
                 return str(rng.choice([0, 1, 2, 3, 5, 7, 12, 200 if BITS[dt] >= 8 else 1, rng.randint(0, 100)]))
